@@ -181,8 +181,11 @@ def _charclass(name):
         it.binds[key] = r
         if r:
             it.store.assume_ge0(v.length() - 1)
-            if name in ('isdigit', 'isdecimal'):
+            if name == 'isdecimal' or (name == 'isdigit' and v.kind == 'bytes'):
+                # str.isdigit() also accepts superscript digits, which int() rejects: only isdecimal (or the
+                # ASCII-only bytes.isdigit) discharges int()
                 it.binds[('digits', it._seq_key(v))] = True
+            if name in ('isdigit', 'isdecimal'):
                 # integers already parsed from this very text are non-negative
                 k = it._seq_key(v)
                 for sym, o in list(it.origin.items()):
